@@ -4,12 +4,17 @@ Proof: coq/theories/LP.  Byte-level Gallina transcription of internal/ingest/lin
 (TrimSpace, splitOnDelimiter, unescape, key=value split, parseFieldValue, the four timestamp
 precisions, ParseBatchWithPrecision, BatchToColumnar) and the line-protocol grammar
 (`point`, `encode_batch`).  Theorems (Arc.LP.Props):
-  C01_roundtrip_fixed    parse_batch (fixed split) (encode_batch ps) = map conv ps, ALL well-formed batches
+  C01_roundtrip_fixed    PRIMARY: parse_batch (split at the first unescaped =, the code in /repo) (encode_batch ps) = map conv ps, ALL well-formed batches
   C01_roundtrip_guarded  the same for the split that is in /repo today, when no key contains '='
   C01_roundtrip_refuted  the code in /repo today mangles / drops a well-formed point whose key contains '='
   C01_ts_conv            the precision guards are exactly "the microsecond value is an int64"
   C01_columnar           BatchToColumnar keeps every row, in order, nil where a key is absent
   C01_fix_conservative   the fixed split equals bytes.IndexByte unless an '=' follows a backslash
+  C01_store_exact / C01_store_unsigned_overflow_refused   what the buffer accepts is stored with exactly the
+                         written typed values; an unsigned column with a value above MaxInt64 is refused
+Second observable: BatchToColumnar's output goes through a real ArrowBuffer (temporary LocalBackend,
+WriteColumnarRecord, FlushAll); the Parquet files are read back and the accept/refuse decision and the
+stored rows are compared with the model (store_measurement) and with what the points denote.
 Tie: the real ParseBatchWithPrecision and BatchToColumnar run (harness/lp, injected by
 overlay, no source rewrite) on grammar-generated batches encoded by the Python twin of
 `encode_batch` (checked equal to the Coq one inside Coq), on a near-grammar stream and on a
